@@ -19,6 +19,8 @@ CLAIMED = {
          "Agreement of the three relations is decided per label-count class {0,1,2,3..7,8+} (exhaustive over the finite class set); the memoisation protocol premises are decided on every path of get_hash/clone. That sort+lexicographic comparison is a total order is the standard argument, not re-proved."),
  "C06": ("provenance of hash/shard/key through every keyed operation, entry-API-only insertion under the write guard (must-pass-through on guard drops), lock-result handling uniformity, kind-triplet isomorphism and kind-consistency over MIR; key contract imported from C03",
          "Every keyed operation of Registry is decided on all paths; RwLock and hashbrown's raw-entry API are trusted. Linearizability under contention is argued from these premises, not explored."),
+ "C05": ("slot-protocol ordering/dominance, wait-before-read must-pass-through gates, link-before-publish dominance, seal-before-read fence, CAS-success-edge confinement of reads and epoch-deferred frees, over MIR of bucket.rs",
+         "Decides the structural premises (necessary conditions) of the bucket's exactly-once argument on every path of Block::{push,len,data,is_quiesced,drop} and AtomicBucket::{push,data_with,clear_with}; exactly-once delivery under all interleavings itself is NOT decided (residue)."),
 }
 checks = []
 for p in props:
